@@ -88,6 +88,8 @@ class C17:
                 "command": None if rng.random() < 0.3 else [rng.choice(VALS) for _ in range(rng.randint(0, 3))],
                 "cenv": cenv, "cenv_calls": cenv_calls, "ports": sorted(set(rng.choice(PORTS) for _ in range(rng.randint(0, 3)))),
                 "mounts": {rng.choice(MPATHS): rng.choice(MPATHS) for _ in range(rng.randint(0, 2))},
+                # a build that is expected to fail and does (pack exits non-zero): still one invocation, same arguments
+                "pack_fails": rng.random() < 0.25,
             }
             cases.append(c)
         return cases
@@ -99,14 +101,14 @@ class C17:
                "app_dir_via_setter": c.get("app_dir_via_setter", False),
                "env": [] if "benv_calls" in c else [[b(k), b(v)] for k, v in c["benv"].items()],
                "env_calls": [{"via": x["via"], "pairs": [[b(k), b(v)] for k, v in x["pairs"]]} for x in c.get("benv_calls", [])],
-               "expected": "success", "pre": "touch" if c["pre"] else None}
+               "expected": "failure" if c.get("pack_fails") else "success", "pre": "touch" if c["pre"] else None}
         ccfg = {"entrypoint": None if c["entrypoint"] is None else b(c["entrypoint"]),
                 "command": None if c["command"] is None else [b(x) for x in c["command"]],
                 "env": [] if "cenv_calls" in c else [[b(k), b(v)] for k, v in c["cenv"].items()],
                 "env_calls": [{"via": x["via"], "pairs": [[b(k), b(v)] for k, v in x["pairs"]]} for x in c.get("cenv_calls", [])],
                 "ports": c["ports"],
                 "mounts": [[b(k), b(v)] for k, v in c["mounts"].items()]}
-        return {"id": c["id"], "build": cfg, "fail": [], "body": [{"op": "start", "cfg": ccfg, "body": []}]}
+        return {"id": c["id"], "build": cfg, "fail": [0] if c.get("pack_fails") else [], "body": [{"op": "start", "cfg": ccfg, "body": []}]}
 
     def run_impl(self, cases, workdir):
         sb = os.path.join(workdir, "sandbox")
@@ -167,6 +169,8 @@ class C17:
             yield dict(c, command=None)
         if c["pre"]:
             yield dict(c, pre=False)
+        if c.get("pack_fails"):
+            yield dict(c, pack_fails=False)
         if c["app_dir"] != "fixtures/app":
             yield dict(c, app_dir="fixtures/app")
 
